@@ -217,18 +217,28 @@ func (d *Document) GetPageSettings() *PageSettings {
 		width := twipsToMM(parseFloat(sectPr.PageSize.W))
 		height := twipsToMM(parseFloat(sectPr.PageSize.H))
 
-		// 判断是否为预定义尺寸
+		// 设置方向。存储的是物理尺寸（横向时宽高已交换），这里还原为逻辑尺寸，
+		// 否则后续的"读取-修改-写入"会把自定义尺寸再次交换
+		if sectPr.PageSize.Orient == string(OrientationLandscape) {
+			settings.Orientation = OrientationLandscape
+			width, height = height, width
+		} else {
+			settings.Orientation = OrientationPortrait
+		}
+
+		// 判断是否为预定义尺寸。identifyPageSize 也接受宽高互换的匹配；
+		// 逻辑尺寸必须直接匹配，否则（例如纵向的 297x210 自定义页面）
+		// 下一次写入会把页面旋转
 		settings.Size = identifyPageSize(width, height)
+		if settings.Size != PageSizeCustom {
+			dims := predefinedSizes[settings.Size]
+			if abs(width-dims.width) >= 1.0 || abs(height-dims.height) >= 1.0 {
+				settings.Size = PageSizeCustom
+			}
+		}
 		if settings.Size == PageSizeCustom {
 			settings.CustomWidth = width
 			settings.CustomHeight = height
-		}
-
-		// 设置方向
-		if sectPr.PageSize.Orient == string(OrientationLandscape) {
-			settings.Orientation = OrientationLandscape
-		} else {
-			settings.Orientation = OrientationPortrait
 		}
 	}
 
